@@ -9,6 +9,7 @@ element by element outside the exempt set.  DESIGN.md 5.2.
 """
 import copy as _copy
 import io
+import os
 
 from sim import core, gen_doc as gd, observe as ob, simfs
 
@@ -36,7 +37,11 @@ ASSUMPTIONS = [
 BIASES = ["path", "transform", "colour", "length", "points", "viewbox", "number", "use", "container", "used", "edge", "style", "absent", "clip"]
 STEP_K = 250
 STEP_C = 50000
-RUNAWAY_CALLS = 8_000_000
+# runaway bound in function entries + generator resumptions: RUNAWAY_K per unit of document size (characters +
+# 80 per instantiated element + 40 x chain length squared); the maximum over the calibration corpus is 6.4 per unit
+RUNAWAY_K = 25
+RUNAWAY_C = 20000
+_RUNAWAY = [4_000_000]
 SIZES = [1, 2, 3, 5, 7, 16, 64, 1000, None]
 MODES = ["stringio", "bytesio", "stream-bytes", "stream-text", "simfs"]
 
@@ -162,11 +167,11 @@ def deliver_and_parse(se, xml, delivery, out, counter, **kw):
     parse under test), the call runs under the flat runaway bound and raises Runaway when it exceeds it."""
     if core.STEPS.active:
         return _deliver_and_parse(se, xml, delivery, out, counter, **kw)
-    core.STEPS.start(RUNAWAY_CALLS, coarse=True)
+    core.STEPS.start(_RUNAWAY[0], coarse=True)
     try:
         return _deliver_and_parse(se, xml, delivery, out, counter, **kw)
     except core.StepBudgetExceeded:
-        raise Runaway("a parse of %d chars did not finish within %d function entries and generator resumptions" % (len(xml), RUNAWAY_CALLS))
+        raise Runaway("a parse of %d chars did not finish within %d function entries and generator resumptions" % (len(xml), _RUNAWAY[0]))
     finally:
         core.STEPS.stop()
 
@@ -248,6 +253,8 @@ def execute(case, se, out, trace):
     if case.get("nest"):
         out.count("fault:deep-nesting")
     trace.ev("doc", xml)
+    n_inst, chars = gd.expanded_size(doc)
+    _RUNAWAY[0] = RUNAWAY_K * (len(xml) + 80 * n_inst + 40 * (case.get("chain") or 0) ** 2) + RUNAWAY_C
     f0 = faults[0] if len(faults) == 1 else ({"tag": "multi", "attr": "multi", "kind": "+".join(sorted(set(f["kind"] for f in faults)))} if faults else {"tag": "-", "attr": "-", "kind": "none"})
     counter = {}
     offending = {f["n"] for f in faults}
@@ -272,11 +279,10 @@ def execute(case, se, out, trace):
     # oracle is on, a flat bound on function entries and generator resumptions (a tenth of the cost of counting
     # lines) everywhere else, so that a parse that never ends is a violation, not a stuck harness
     if case.get("steps"):
-        n_inst, chars = gd.expanded_size(doc)
         budget = STEP_K * (chars + 80 * n_inst) + STEP_C
         core.STEPS.start(budget)
     else:
-        budget = RUNAWAY_CALLS
+        budget = _RUNAWAY[0]
         core.STEPS.start(budget, coarse=True)
     exc = None
     svg = None
@@ -286,6 +292,10 @@ def execute(case, se, out, trace):
         pass
     except RecursionError as e:
         exc = e
+    except MemoryError:
+        # under the address-space cap of the chunk children: a parse that allocates without end
+        core.STEPS.stop()
+        raise V("steps", [f0["tag"], f0["attr"], f0["kind"], "memory"], "SVG.parse ran out of memory (cap %s GB) on a document of %d chars" % (os.environ.get("VERIF_MEM_CAP_GB", "3"), len(xml)))
     except Exception as e:
         exc = e
     steps = core.STEPS.stop()
@@ -300,6 +310,10 @@ def execute(case, se, out, trace):
     if exc is not None:
         raise V("no-raise", [type(exc).__name__, core.exc_sig(exc)[1], f0["tag"], f0["attr"], f0["kind"]], "SVG.parse raised %r for fault(s) %s%s" % (exc, _fdesc(faults), " (content nested in %d groups)" % case["nest"] if case.get("nest") else ""))
     trace.ev("parsed", type(svg).__name__)
+    # "returns a document tree": for a document whose outermost element is an svg that is an SVG object, whatever
+    # happened to the element's own attributes (a fault on the root may leave it empty, not replace it by a child)
+    if doc["tag"] == "svg" and not isinstance(svg, se.SVG):
+        raise V("no-tree", [type(svg).__name__, f0["tag"], f0["attr"], f0["kind"]], "SVG.parse returned %s instead of a document tree for fault(s) %s" % (type(svg).__name__, _fdesc(faults)))
     # ---- 3: isolation
     root_n = doc["n"]
     if root_n in offending:
